@@ -3,23 +3,25 @@ package sim
 import (
 	"fmt"
 	"strings"
+	"time"
 )
 
 // C19 - hostile input is bounded: over-long lines and error floods end the
 // connection; nothing crashes or panics.
 
 type c19X struct {
-	Kind      int // 0 boundary line, 1 endless line, 2 short strings, 3 seeded binary, 4 error threshold
-	Limit     int
-	Len       int // probe line length, CRLF included
-	Form      int // 0 NOOP padded, 1 MAIL padded with spaces
-	Pos       int
-	Pre       int // replies before the probe
-	MailOK    bool
-	LineStart int // client stream offset of the hostile line
-	Lines     []string
-	ErrAt     int // index in Lines of the fourth counted error, -1 if fewer
-	Judged    bool
+	Kind       int // 0 boundary line, 1 endless line, 2 short strings, 3 seeded binary, 4 error threshold
+	Limit      int
+	Len        int // probe line length, CRLF included
+	Form       int // 0 NOOP padded, 1 MAIL padded with spaces
+	Pos        int
+	Pre        int // replies before the probe
+	MailOK     bool
+	LineStart  int // client stream offset of the hostile line
+	Lines      []string
+	ErrAt      int // index in Lines of the fourth counted error, -1 if fewer
+	Judged     bool
+	WriteFault bool // error threshold: the reply writes fail from some point on (the peer does not read)
 }
 
 var c19Pos = []string{"before-helo", "greeted", "after-mail", "after-bdat-chunk", "after-transaction", "inside-auth-exchange", "after-chunk-refused-by-backend"}
@@ -227,6 +229,22 @@ func genC19(t *Tape, tier string) *Scenario {
 	}
 	cs := ConnScript{Lat: drawLat(t), SrvCaps: drawCaps(t), Steps: steps}
 	cs.defaults()
+	if x.Kind == 4 && t.Chance(1, 4) {
+		// the flood comes from a peer that does not take the replies: from some reply on
+		// the writes fail, or one blocks until WriteTimeout and the rest fail
+		x.WriteFault = true
+		// a sentinel command behind the flood shows whether the server went on executing
+		q := cs.Steps[len(cs.Steps)-1]
+		cs.Steps = append(cs.Steps[:len(cs.Steps)-1], Step{Kind: kMarker, Data: line("MAIL FROM:<ok-after-flood@a.example>"), Wait: q.Wait, Pre: time.Second}, q)
+		if t.Bool() {
+			cs.SrvFaults.FailWriteAt = 2 + t.Intn(4)
+		} else {
+			cs.SrvFaults.BlockWriteAt = 2 + t.Intn(4)
+			sc.Srv.WriteTO = 10 * time.Minute
+			cs.NoClose = true
+		}
+		cs.AwaitTO = 5 * time.Second
+	}
 	sc.Conns = []ConnScript{cs}
 	sc.BE.Conns = []ConnBackendPlan{cp}
 	sc.Strata = []string{c19Kinds[x.Kind]}
@@ -325,7 +343,21 @@ func checkC19(sc *Scenario, h *History) []Violation {
 		}
 	case 4:
 		// reference error counter over the generated lines
-		if x.ErrAt >= 0 {
+		if x.WriteFault {
+			// replies are lost from some point on: only the closing is judged
+			if x.ErrAt >= 0 {
+				w2 := wit + fmt.Sprintf(" failwrite=%d blockwrite=%d", sc.Conns[0].SrvFaults.FailWriteAt, sc.Conns[0].SrvFaults.BlockWriteAt)
+				if !closedByServer {
+					out = append(out, Violation{Rule: "C19.error-threshold", Detail: fmt.Sprintf("fourth malformed command is line %d, reply writes fail: the server never closed the connection", x.ErrAt), Witness: w2})
+				}
+				for _, e := range h.Events {
+					if e.Kind == "Mail" && strings.Contains(e.Arg, "ok-after-flood") {
+						out = append(out, Violation{Rule: "C19.error-threshold", Detail: fmt.Sprintf("fourth malformed command is line %d, reply writes fail: the server went on executing commands (Mail(%s))", x.ErrAt, e.Arg), Witness: w2})
+						break
+					}
+				}
+			}
+		} else if x.ErrAt >= 0 {
 			want := x.Pre + x.ErrAt + 2 // one reply per line up to the fourth error, plus the closing notice
 			if len(replies) != want || !closedByServer {
 				out = append(out, Violation{Rule: "C19.error-threshold", Detail: fmt.Sprintf("fourth malformed command is line %d: expected %d replies then a close (closed=%v), got %d: %s", x.ErrAt, want, closedByServer, len(replies), strings.Join(codes, " ")), Witness: wit})
@@ -374,6 +406,9 @@ func classifyC19(sc *Scenario, h *History, st *Stats) string {
 	case 4:
 		if x.ErrAt >= 0 {
 			st.Probes["error_threshold_reached"]++
+			if x.WriteFault {
+				st.Faults["error_flood_while_reply_writes_fail"]++
+			}
 		}
 	}
 	if ch.SrvCloseSeq >= 0 {
@@ -430,7 +465,7 @@ func init() {
 		Real:        []string{"smtp.Server.Serve/handleConn", "smtp.Conn command loop, protocolError, panic recovery", "lineLimitReader", "parseCmd and argument parsers", "net/textproto", "bufio"},
 		Stub:        []string{"net.Listener (SimListener)", "net.Conn (SimConn; counts the octets the server pulls)", "Backend/Session (SimBackend)", "clock (synctest)", "SMTP client (raw driver)", "Server.ErrorLog (recording logger)"},
 		Assumptions: []string{"only unknown verbs and lines not of the shape VERB [SP args] are used as 'unrecognised or malformed'; argument-level syntax errors are counted neither way", "an unrecovered panic kills the worker process and is reported by verifctl as a process-crash violation"},
-		Required:    []string{"endless_line_after_bdat_chunk", "probe_after_chunk_refused_by_backend", "probe_line_in_the_same_segment_as_a_chunk", "limit_crossed_across_segments", "limit_crossed_inside_one_segment", "error_threshold_reached", "line_len_limit+2", "line_len_limit+0"},
+		Required:    []string{"endless_line_after_bdat_chunk", "probe_after_chunk_refused_by_backend", "probe_line_in_the_same_segment_as_a_chunk", "limit_crossed_across_segments", "limit_crossed_inside_one_segment", "error_threshold_reached", "line_len_limit+2", "line_len_limit+0", "error_flood_while_reply_writes_fail"},
 		QuickRuns:   120000, ThoroughRuns: 3000000,
 	})
 }
